@@ -137,6 +137,48 @@ def close_rows_family(rng):
     return t1, t2
 
 
+def near_cutoff_family(rng):
+    """the same pair of long sub-lists (A in t1, B in t2) in two groups with different neighbours; A and B are just under the pairing cutoff (0.3) apart, at a
+    distance that is not a multiple of 0.01: the second group meets the pair through the distance cache, the first computes it"""
+    m, c = rng.choice([(16, 10), (13, 8), (19, 12), (16, 10)])
+    tag = rng.randrange(1000)
+    common = ['common%02d_%d' % (i, tag) for i in range(c)]
+    A = common + ['only_in_a%d' % i for i in range(m)]
+    B = common + ['only_in_b%d' % i for i in range(m)]
+    t1 = {'first': [list(A), 'u', 'v', 'w'], 'second': [list(A), 'u', 'v', ['q1', 'q2']], 'third': [[1, 2, 3, [4, 5]], [6, 7, [8, 9]]]}
+    t2 = {'first': [list(B), 'u', 'v', 'w'], 'second': [list(B), 'u', 'v', ['r1', 'r2', 'r3']], 'third': [[6, 7, [8, 10]], [1, 2, 3, [4, 50]]]}
+    if rng.random() < 0.3:
+        t1, t2 = [t1['first'], t1['second']], [t2['first'], t2['second']]
+    return t1, t2
+
+
+def many_passes(ctx):
+    """a long input: many groups of near-duplicate rows, the groups copies of each other -- with a distance cache the row distances are computed once, without one
+    again for every group (more than ten thousand nested passes): the result is the same"""
+    from deepdiff import DeepDiff
+    groups, unchanged, changed = 12 + ctx.rng.randint(0, 2), 16, 30
+    common = ['c%d' % i for i in range(4)]
+
+    def group(side):
+        rows = [common + ['same%d' % j, 'keep%d' % j, 'stay%d' % j] for j in range(unchanged)]
+        rows += [common + ['x%d' % j, 'y%d' % j, ('old%d' if side == 1 else 'new%d') % j] for j in range(changed)]
+        return rows
+    t1 = {'g%d' % i: group(1) for i in range(groups)}
+    t2 = {'g%d' % i: group(2) for i in range(groups)}
+    case = {'t1': '%d groups of %d rows (%d of them changed in one leaf)' % (groups, unchanged + changed, changed), 't2': 'the same groups, one leaf of each changed row replaced', 'ignore_order': True}
+    res = {}
+    for cs in (0, 5000):
+        ctx.evaluations += 1
+        try:
+            res[cs] = canon(DeepDiff(copy.deepcopy(t1), copy.deepcopy(t2), ignore_order=True, cache_size=cs))
+        except Exception as e:
+            ctx.violate(dict(case, cache_size=cs), 'DeepDiff raised %s' % type(e).__name__); return
+    ctx.count('many_passes')
+    ctx.nontriv(('many_passes', groups))
+    if res[0] != res[5000]:
+        ctx.violate(dict(case, cache_size=5000), 'the result differs from the cache_size=0 result (long input)')
+
+
 def template_family(rng):
     """t1 refers to one sub-list object in several places (an item of the outer list that is also nested inside later items, the way
     near-duplicate records get built); t2 holds edited copies"""
@@ -277,6 +319,8 @@ def run(ctx, impl_only=False):
     pairs += [template_family(ctx.rng) for _ in range(max(6, n // 2))]
     pairs += [tie_family(ctx.rng) for _ in range(max(6, n // 2))]
     pairs += [close_rows_family(ctx.rng) for _ in range(max(3, n // 6))]
+    pairs += [near_cutoff_family(ctx.rng) for _ in range(max(3, n // 10))]
+    many_passes(ctx)
     cache_keys(ctx)
     history_independence(ctx)
     lines, metas = [], []
